@@ -54,8 +54,16 @@ func genC19(t *rapid.T) C19Case {
 			b.WriteString(nm)
 			b.WriteString(after)
 		}
+		// statements that declare nothing, placed between declarations and between a table and its members
+		noise := func() {
+			if rapid.IntRange(0, 3).Draw(t, "noise") == 0 {
+				b.WriteString(rapid.SampledFrom([]string{"while false do end\n", "for i = 1, 2 do end\n", "do end\n", "if false then end\n", "repeat until true\n",
+					"for k, v in pairs({}) do end\n", "print(1)\n", "while false do\n  local w = 1\nend\n"}).Draw(t, "noiseStat"))
+			}
+		}
 		n := rapid.IntRange(1, 8).Draw(t, "nitems")
 		for i := 0; i < n; i++ {
+			noise()
 			switch rapid.IntRange(0, 8).Draw(t, "item") {
 			case 8:
 				// a local function declared below the main chunk's top level: in a do / if / for block, in
@@ -93,6 +101,7 @@ func genC19(t *rapid.T) C19Case {
 				}
 				nm := rapid.IntRange(0, 4).Draw(t, "nmembers")
 				for j := 0; j < nm; j++ {
+					noise()
 					switch rapid.IntRange(0, 3).Draw(t, "member") {
 					case 0:
 						add("member-func", tn, name("mf"), global, "function "+tn+".", "("+params()+")"+body()+"end\n")
